@@ -40,18 +40,15 @@ impl Subject for Stress {
         match crate::util::catch(|| (self.0.run)(Duration::from_millis(ms))) {
             Ok(Ok(iters)) => {
                 let st = ctx.stats(&name);
-                st.executions += 1;
-                st.transitions += iters;
+                // (not booked as executions / transitions of the exploration: sampling is reported separately)
                 *st.outcomes.entry("no_failure_observed".into()).or_insert(0) += 1;
                 *st.extra.entry("sampled_iterations".into()).or_insert(0) += iters;
             }
             Ok(Err(f)) => {
-                ctx.stats(&name).executions += 1;
                 *ctx.stats(&name).outcomes.entry(format!("fail:{}:{}", f.clause, f.class)).or_insert(0) += 1;
                 ctx.violation(&name, &f, json!({"stress_ms": ms}));
             }
             Err(f) => {
-                ctx.stats(&name).executions += 1;
                 ctx.violation(&name, &Fail::new("panic", f.detail.clone()).with_class("stress"), json!({"stress_ms": ms}));
             }
         }
